@@ -150,6 +150,20 @@ CHECKS = {
             "Derived strengths only under the property's premise (every initial cost above its "
             "target); float32-vs-float64 tolerance 1e-4.",
             "DESIGN.md 4/C19"),
+    'C20': ("exhaustive small-matrix enumeration + Hypothesis score matrices for the reassignment "
+            "step; Hypothesis-generated per-channel MPS models for the whole refinement with a "
+            "recording wrapper; contract / promote-only / cost oracles",
+            "The step is called directly on all compositions of the channel count for P<=3, C<=5 "
+            "(20/60 seeded score matrices each) and on Hypothesis matrices up to 4x8 (random, with "
+            "ties, binary); the whole refinement runs on generated per-channel MPS models under the "
+            "NE16 cost while the harness records every reassignment call; what the search chooses "
+            "(count level: promote-only, non-negative, pruned count unchanged, sum preserved, not "
+            "costlier) is never excused, channel-level consequences of the greedy step are "
+            "classified as known findings only while the step returns exactly the shipped "
+            "algorithm's output.",
+            "Three open known findings (greedy step, its consequences, shared selectors) are "
+            "classified narrowly; the classifier embeds a transcription of the shipped greedy.",
+            "DESIGN.md 4/C20"),
 }
 
 NOT_YET = "check not built yet in this session; planned with property-based testing per DESIGN.md section 4"
